@@ -113,90 +113,106 @@ def run_property(pid, units, tier, level, level_note_assumptions, not_decided, s
     aunits = [u for u in units if u.engine == "audit"]
 
     # ---------------- Kani ----------------
-    if kunits:
-        with core.Scratch(tag=pid) as sc:
-            done_mod = set()
-            ok_units = []
-            for u in kunits:
-                try:
-                    if u.prepare:
-                        u.prepare(sc)
-                    for parent, mod in u.modules:
-                        if (parent, mod) not in done_mod:
-                            sc.append_module(parent, gen.expand(mod, os.path.join(sc.dir, "gen")))
-                            done_mod.add((parent, mod))
-                    ok_units.append(u)
-                except Undecided as e:
-                    undecided.append(str(e))
-                    unit_reports.append({"unit": u.uid, "engine": "kani", "status": "undecided", "reason": str(e)})
-                except Exception as e:  # extraction bug or unexpected source shape: never an alarm
-                    undecided.append(f"UNDECIDED unit={u.uid} reason=prepare-failed {e!r}")
-                    unit_reports.append({"unit": u.uid, "engine": "kani", "status": "undecided", "reason": repr(e)})
-            transformations = sc.injected
-            groups = {}
-            for u in ok_units:
-                groups.setdefault((u.extra, u.timeout), []).append(u)
-            for (extra, timeout), us in groups.items():
-                hs = [h for u in us for h in u.harnesses]
-                log(f"[{pid}] kani: {len(hs)} harnesses, timeout {timeout}s, extra={list(extra)}")
-                r = core.run_kani(sc, hs, harness_timeout=timeout, jobs=int(os.environ.get("VERIF_JOBS", "8")),
-                                  extra=list(extra), tag=f"g{len(cmds)}")
-                cmds.append(r["cmd"])
-                if r["compile_error"]:
-                    for u in us:
-                        undecided.append(f"UNDECIDED unit={u.uid} reason=harness-does-not-compile")
-                        unit_reports.append({"unit": u.uid, "engine": "kani", "status": "undecided",
-                                             "reason": "compile error (changed signature / lost anchor)",
-                                             "log_tail": r["log_tail"][-1500:]})
-                    continue
-                for u in us:
-                    rep = {"unit": u.uid, "title": u.title, "engine": "kani/cbmc-6.11 (cadical)", "complete": u.complete,
-                           "bound": u.bound, "harnesses": {}, "functions": functions_under_contract(u),
-                           "dropped_by_extraction": u.dropped}
-                    for h in u.harnesses:
-                        hr = r["harnesses"].get(h)
-                        checks = [c for c in hr["checks"] if c.get("category") != "cover"]
-                        covers = [c for c in hr["checks"] if c.get("category") == "cover"]
-                        n = len(checks)
-                        ok = sum(1 for c in checks if c["status"] in ("Success", "Unreachable"))
-                        st = hr["stats"] or {}
-                        ss = float(st.get("runtime_solver_s", 0) or 0) + float(st.get("runtime_symex_s", 0) or 0)
-                        solver_s += ss
-                        rep["harnesses"][h] = {"status": hr["status"], "checks": n, "ok": ok,
-                                               "cbmc_symex_plus_solver_s": round(ss, 2), "wall_s": hr["duration_s"],
-                                               "covers": {c["description"]: c["status"] for c in covers}}
-                        if hr["status"] in ("timeout", "error", "undetermined"):
-                            undecided.append(f"UNDECIDED unit={u.uid} harness={h} reason={hr['status']}")
-                            continue
-                        if n == 0:
-                            undecided.append(f"UNDECIDED unit={u.uid} harness={h} reason=zero-obligations")
-                            continue
-                        if u.expect_cover and (not covers or any(c["status"] != "Satisfied" for c in covers)):
-                            undecided.append(f"UNDECIDED unit={u.uid} harness={h} reason=vacuity-guard(cover not satisfied)")
-                            continue
-                        if u.complete:
-                            obligations += n; discharged += ok
-                        else:
-                            bounded_obl += n; bounded_dis += ok
-                        for c in checks:
-                            if c["status"] == "Failure":
-                                kind, cu, case = classify_failure(u, h, c)
-                                if kind == "undecided":
-                                    undecided.append(f"UNDECIDED unit={u.uid} harness={h} reason={case}")
-                                else:
-                                    failures.append({"unit": u.uid, "harness": h, "kind": kind, "case": case, "check": c,
-                                                     "replay": u.replay})
-                        spec_ok = [c for c in checks if c["status"] == "Success" and SPEC_RE.match(c["description"].strip())]
-                        for c in spec_ok[:2]:
-                            samples.append({"unit": u.uid, "harness": h, "obligation": c["description"].strip('"'),
-                                            "status": "discharged"})
-                    unit_reports.append(rep)
+    acc = {"obligations": 0, "discharged": 0, "bounded_obl": 0, "bounded_dis": 0, "solver_s": 0.0}
 
-            # replay of failures while the scratch copy still exists
-            for f in failures:
-                if core.known_match(known, pid, f["unit"], f["case"]):
-                    continue
-                f["replay_result"] = make_replay(pid, f, sc)
+    def kani_pass(kunits, allow_split):
+        nonlocal transformations
+        if kunits:
+            with core.Scratch(tag=pid) as sc:
+                done_mod = set()
+                ok_units = []
+                for u in kunits:
+                    try:
+                        if u.prepare:
+                            u.prepare(sc)
+                        for parent, mod in u.modules:
+                            if (parent, mod) not in done_mod:
+                                sc.append_module(parent, gen.expand(mod, os.path.join(sc.dir, "gen")))
+                                done_mod.add((parent, mod))
+                        ok_units.append(u)
+                    except Undecided as e:
+                        undecided.append(str(e))
+                        unit_reports.append({"unit": u.uid, "engine": "kani", "status": "undecided", "reason": str(e)})
+                    except Exception as e:  # extraction bug or unexpected source shape: never an alarm
+                        undecided.append(f"UNDECIDED unit={u.uid} reason=prepare-failed {e!r}")
+                        unit_reports.append({"unit": u.uid, "engine": "kani", "status": "undecided", "reason": repr(e)})
+                transformations = transformations + sc.injected
+                groups = {}
+                for u in ok_units:
+                    groups.setdefault((u.extra, u.timeout), []).append(u)
+                for (extra, timeout), us in groups.items():
+                    hs = [h for u in us for h in u.harnesses]
+                    log(f"[{pid}] kani: {len(hs)} harnesses, timeout {timeout}s, extra={list(extra)}")
+                    r = core.run_kani(sc, hs, harness_timeout=timeout, jobs=int(os.environ.get("VERIF_JOBS", "8")),
+                                      extra=list(extra), tag=f"g{len(cmds)}")
+                    cmds.append(r["cmd"])
+                    if r["compile_error"] and allow_split and len(kunits) > 1:
+                        log(f"[{pid}] harness set does not compile; retrying each unit in its own scratch copy")
+                        return "split"
+                    if r["compile_error"]:
+                        for u in us:
+                            undecided.append(f"UNDECIDED unit={u.uid} reason=harness-does-not-compile")
+                            unit_reports.append({"unit": u.uid, "engine": "kani", "status": "undecided",
+                                                 "reason": "compile error (changed signature / lost anchor)",
+                                                 "log_tail": r["log_tail"][-1500:]})
+                        continue
+                    for u in us:
+                        rep = {"unit": u.uid, "title": u.title, "engine": "kani/cbmc-6.11 (cadical)", "complete": u.complete,
+                               "bound": u.bound, "harnesses": {}, "functions": functions_under_contract(u),
+                               "dropped_by_extraction": u.dropped}
+                        for h in u.harnesses:
+                            hr = r["harnesses"].get(h)
+                            checks = [c for c in hr["checks"] if c.get("category") != "cover"]
+                            covers = [c for c in hr["checks"] if c.get("category") == "cover"]
+                            n = len(checks)
+                            ok = sum(1 for c in checks if c["status"] in ("Success", "Unreachable"))
+                            st = hr["stats"] or {}
+                            ss = float(st.get("runtime_solver_s", 0) or 0) + float(st.get("runtime_symex_s", 0) or 0)
+                            acc["solver_s"] += ss
+                            rep["harnesses"][h] = {"status": hr["status"], "checks": n, "ok": ok,
+                                                   "cbmc_symex_plus_solver_s": round(ss, 2), "wall_s": hr["duration_s"],
+                                                   "covers": {c["description"]: c["status"] for c in covers}}
+                            if hr["status"] in ("timeout", "error", "undetermined"):
+                                undecided.append(f"UNDECIDED unit={u.uid} harness={h} reason={hr['status']}")
+                                continue
+                            if n == 0:
+                                undecided.append(f"UNDECIDED unit={u.uid} harness={h} reason=zero-obligations")
+                                continue
+                            if u.expect_cover and (not covers or any(c["status"] != "Satisfied" for c in covers)):
+                                undecided.append(f"UNDECIDED unit={u.uid} harness={h} reason=vacuity-guard(cover not satisfied)")
+                                continue
+                            if u.complete:
+                                acc["obligations"] += n; acc["discharged"] += ok
+                            else:
+                                acc["bounded_obl"] += n; acc["bounded_dis"] += ok
+                            for c in checks:
+                                if c["status"] == "Failure":
+                                    kind, cu, case = classify_failure(u, h, c)
+                                    if kind == "undecided":
+                                        undecided.append(f"UNDECIDED unit={u.uid} harness={h} reason={case}")
+                                    else:
+                                        failures.append({"unit": u.uid, "harness": h, "kind": kind, "case": case, "check": c,
+                                                         "replay": u.replay})
+                            spec_ok = [c for c in checks if c["status"] == "Success" and SPEC_RE.match(c["description"].strip())]
+                            for c in spec_ok[:2]:
+                                samples.append({"unit": u.uid, "harness": h, "obligation": c["description"].strip('"'),
+                                                "status": "discharged"})
+                        unit_reports.append(rep)
+
+                # replay of failures while the scratch copy still exists
+                for f in failures:
+                    if core.known_match(known, pid, f["unit"], f["case"]):
+                        continue
+                    f["replay_result"] = make_replay(pid, f, sc)
+
+
+    if kani_pass(kunits, True) == "split":
+        failures.clear(); undecided.clear(); unit_reports.clear(); samples.clear(); cmds.clear()
+        transformations = []
+        for u in kunits:
+            kani_pass([u], False)
+    obligations += acc["obligations"]; discharged += acc["discharged"]
+    bounded_obl += acc["bounded_obl"]; bounded_dis += acc["bounded_dis"]; solver_s += acc["solver_s"]
 
     # ---------------- Verus ----------------
     for u in vunits:
